@@ -568,6 +568,24 @@ def _r_c(t):
     return 0.2 * np.sin(t) ** 2
 
 
+def _f_w(t, W):
+    return 0.5 + 0.3 * np.tanh(W(t)[0])
+
+
+def _f_s(t, state):
+    if state is None:
+        return 0.5
+    return 0.5 + 0.25 * abs(state.full()[0, 0])
+
+
+def _f_e(t, E0):
+    return 0.5 + 0.25 * float(np.real(E0))
+
+
+def _f_c(t, cols):
+    return 1.0 / (1.0 + len(cols))
+
+
 def _raise_late(t, state):
     if t > 0.3:
         raise ZeroDivisionError("scripted e_op failure")
@@ -604,6 +622,28 @@ def gen_problem(rng, kind):
         spec["tlist"] = [i * stepn * dt for i in range(n)]
         spec["meas"] = rng.choice(["", "start", "end", "middle"])
         spec["extra_c"] = kind == "sme" and rng.random() < 0.4
+    # coefficients fed by the trajectory itself (the feedback mechanisms each
+    # solver offers): per-trajectory objects that a per-solver cache must not keep
+    spec["fb"] = []
+    if kind != "nm" and rng.random() < 0.45:
+        if kind == "mc":
+            # (MCSolver.StateFeedback is not usable: it passes the builtin `open`)
+            pool = [("c", "collapse"), ("c", "collapse"), ("H", "expect"), ("c", "expect")]
+        else:
+            # (WienerFeedback inside H is not registered by _StochasticRHS: not used)
+            pool = [("sc", "wiener"), ("sc", "wiener"), ("H", "state"),
+                    ("H", "expect"), ("sc", "state"), ("sc", "expect")]
+            if kind == "sme":
+                pool += [("c", "wiener"), ("c", "wiener"), ("c", "state"), ("c", "expect")]
+        spec["fb"] = [list(x) for x in rng.sample(pool, rng.choice([1, 1, 2]))]
+        spec["fb"] = [list(x) for x in sorted(set(tuple(x) for x in spec["fb"]))]
+        if kind == "mc" and spec["method"] == "diag":
+            spec["method"] = "adams"
+        if kind in ("sse", "sme") and spec["method"] == "rouchon" and \
+                any(k != "wiener" for _, k in spec["fb"]):
+            spec["method"] = "platen"
+        if kind == "sme" and any(w == "c" for w, _ in spec["fb"]):
+            spec["extra_c"] = True
     return spec
 
 
@@ -623,6 +663,26 @@ def build(spec, **over):
         psi = (qt.basis(N, 0) + qt.basis(N, N - 1)).unit()
     e_ops = [a.dag() * a, a + a.dag()][:spec["eops"]]
     kind = spec["kind"]
+    cls = {"mc": qt.MCSolver, "nm": qt.NonMarkovianMCSolver, "sse": qt.SSESolver,
+           "sme": qt.SMESolver}[kind]
+    extra_c = [0.3 * a.dag()] if spec.get("extra_c") else []
+
+    def fb_coeff(k):
+        if k == "wiener":
+            return _f_w, {"W": cls.WienerFeedback()}
+        if k == "collapse":
+            return _f_c, {"cols": cls.CollapseFeedback()}
+        if k == "state":
+            return _f_s, {"state": cls.StateFeedback()}
+        return _f_e, {"E0": cls.ExpectFeedback(a.dag() * a)}
+    for where, k in spec.get("fb", []):
+        f, args = fb_coeff(k)
+        if where == "H":
+            H = qt.QobjEvo([H, [0.25 * (a + a.dag()), f]], args=args)
+        elif where == "sc" or (where == "c" and kind == "mc"):
+            ops[0] = qt.QobjEvo([ops[0], f], args=args)
+        else:
+            extra_c[0] = qt.QobjEvo([extra_c[0], f], args=args)
     base = {"progress_bar": "", "store_states": True, "method": spec["method"]}
     if kind in ("mc", "nm"):
         base["improved_sampling"] = spec["improved"]
@@ -641,8 +701,7 @@ def build(spec, **over):
             return qt.NonMarkovianMCSolver(H, oar, options=opt)
         if kind == "sse":
             return qt.SSESolver(H, ops, heterodyne=spec["het"], options=opt)
-        c = [0.3 * a.dag()] if spec.get("extra_c") else []
-        return qt.SMESolver(H, ops, heterodyne=spec["het"], c_ops=c, options=opt)
+        return qt.SMESolver(H, ops, heterodyne=spec["het"], c_ops=extra_c, options=opt)
     return mk, psi, list(spec["tlist"]), e_ops
 
 
@@ -769,6 +828,17 @@ class Oracle:
         k = self.rng.randint(1, len(seeds))
         res = P.run(P.mk({"keep_runs_results": True}), k, seeds)
         self.compare(P, res, "permuted-list", [_sid(s) for s in seeds[:k]])
+
+    def v_rerun(self, P, res0):
+        """the same ensemble twice on ONE solver object, the second time with the
+        seed list reversed"""
+        solver = P.mk({"keep_runs_results": True})
+        r1 = P.run(solver, P.spec["ntraj"], P.spec["seed"])
+        seeds = [copy.deepcopy(s) for s in reversed(r1.seeds)]
+        r2 = P.run(solver, len(seeds), seeds)
+        ids = [_sid(s) for s in res0.seeds]
+        self.compare(P, r1, "same-solver-first-run", ids)
+        self.compare(P, r2, "same-solver-second-run", ids)
 
     def v_sub(self, P, res0):
         k = self.rng.randint(1, P.spec["ntraj"])
@@ -1086,7 +1156,13 @@ class Oracle:
             signal.signal(signal.SIGALRM, old)
 
     def _one_problem(self, spec, variants=None):
-        P = Problem(spec)
+        try:
+            P = Problem(spec)
+        except TimeoutError:
+            raise
+        except Exception:
+            self.dist["build-error"] = self.dist.get("build-error", 0) + 1
+            return
         with warnings.catch_warnings():
             warnings.simplefilter("ignore")
             try:
@@ -1099,12 +1175,16 @@ class Oracle:
                 self.dist["solver-error"] = self.dist.get("solver-error", 0) + 1
                 self.ctx.count_case(("oracle-error", json.dumps(spec, sort_keys=True)), nontrivial=False)
                 return
-            allv = ["parallel", "permuted", "sub", "scripted", "nokeep", "feedback", "history",
-                    "globals", "draws"]
+            allv = ["parallel", "permuted", "rerun", "sub", "scripted", "nokeep", "feedback",
+                    "history", "globals", "draws"]
             if spec["kind"] == "mc" and not spec["improved"]:
                 allv.append("mixed")
             if variants is None:
                 variants = allv if not self.ctx.quick else self.rng.sample(allv, 4)
+                if spec.get("fb"):
+                    variants = list(dict.fromkeys(["permuted", "rerun", "parallel"] + list(variants)))
+            self.dist["fb/" + "+".join("%s:%s" % tuple(x) for x in spec.get("fb", [])) or "fb/none"] = \
+                self.dist.get("fb/" + "+".join("%s:%s" % tuple(x) for x in spec.get("fb", [])) or "fb/none", 0) + 1
             for v in variants:
                 if v not in allv:
                     continue
